@@ -8,7 +8,7 @@ ID = "C09"
 MM = "mlinsights/mlmodel/"
 SOURCES = [MM + "_piecewise_tree_regression_common.pyx", MM + "piecewise_tree_regression_criterion.pyx",
            MM + "piecewise_tree_regression_criterion_fast.pyx",
-           MM + "piecewise_tree_regression_criterion_linear.pyx"]
+           MM + "piecewise_tree_regression_criterion_linear.pyx", MM + "piecewise_tree_regression.py"]
 LEAN_TARGETS = ["MlVerif.Gen.C09", "MlVerif.Model.Criterion", "MlVerif.Lemmas.Criterion",
                 "MlVerif.Lemmas.CriterionConst", "MlVerif.Lemmas.CriterionLinear",
                 "MlVerif.Lemmas.CriterionAccess", "MlVerif.Lemmas.CriterionReach", "MlVerif.Lemmas.CriterionLS",
